@@ -557,6 +557,9 @@ def vacuity_check(gen, meta, my_fns):
     with open(vpath + ".map.json") as f:
         vmeta = json.load(f)
     linemap = vmeta["linemap"]
+    _f, hard, _u = classify(res["diags"], vmeta)
+    if hard:
+        return {"ok": False, "problem": "the vacuity file does not compile (machinery error): " + hard[0][:300]}
     failed_fns = set()
     for d in res["diags"]:
         if d.get("level") != "error":
